@@ -3,7 +3,9 @@ import ActixModel.Model.Payload
 /-
 Line-protocol driver for C07 (request-body channel).
 
-case   := [ "eof=1" ] [ "wrap=1" ] op*            (space separated)
+case   := [ "eof=1" ] [ "wrap=1" ] [ "from=<n>" ] op*            (space separated)
+          from=<n>: the reader is `actix_http::Payload::from(Bytes of n bytes)` (src/payload.rs:
+          create(true), sender dropped at once, unread_data(bytes)); eof=/wrap= are then ignored
 op     := fd:<n>      feed_data(chunk of n bytes)          se:<err>  set_error
         | fe          feed_eof                             ds        drop(sender)
         | nr:<w>      need_read(cx of waker w)             isd       sender.is_dropped()
@@ -54,8 +56,8 @@ def maxChunks : Nat := 4096
 /-- parse one op token; `k` = number of data-carrying tokens seen so far -/
 def parseOp (k : Nat) (tok : String) : Option (Op Desc) :=
   match tok.splitOn ":" with
-  | ["fd", n] => n.toNat?.bind fun n => if n ≤ maxChunk && k < maxChunks then some (.feedData ⟨k, n⟩) else none
-  | ["ur", n] => n.toNat?.bind fun n => if n ≤ maxChunk && k < maxChunks then some (.unreadData ⟨k, n⟩) else none
+  | ["fd", n] => n.toNat?.bind fun n => if n ≤ maxChunk && k < maxChunks - 1 then some (.feedData ⟨k, n⟩) else none
+  | ["ur", n] => n.toNat?.bind fun n => if n ≤ maxChunk && k < maxChunks - 1 then some (.unreadData ⟨k, n⟩) else none
   | ["fe"] => some .feedEof
   | ["se", e] => (errOfTok e).map .setError
   | ["ds"] => some .dropSender
@@ -98,10 +100,20 @@ def runToks : Chan Desc → Nat → List String → List String → List String
       runToks c' k' ts (showOut c' o :: acc)
     | none => runToks c k' ts ("bad-op" :: acc)
 
+/-- `impl<S> From<Bytes> for Payload<S>` (`actix-http/src/payload.rs:50`):
+`let (_, mut pl) = h1::Payload::create(true); pl.unread_data(bytes);` — the sender is dropped at
+once.  The chunk gets the reserved id `maxChunks - 1`. -/
+def fromBytes (n : Nat) : Chan Desc :=
+  Chan.exec (Chan.create true) [.dropSender, .unreadData ⟨maxChunks - 1, n⟩]
+
 def run (line : String) : String :=
   let ws := words line
   let eof := kv ws "eof" == some "1"
   let ops := ws.filter fun w => !w.contains '='
-  joinWith " " (runToks (Chan.create eof) 0 ops [])
+  let init :=
+    match (kv ws "from").bind String.toNat? with
+    | some n => if n ≤ maxChunk then fromBytes n else Chan.create eof
+    | none => Chan.create eof
+  joinWith " " (runToks init 0 ops [])
 
 end ActixModel.Drv.C07
